@@ -1,31 +1,23 @@
 """C13 extra step: row order of the real CLI (`rare histo|table --sort ...`, piped = snapshot) on the same
 data delivered in several shuffled line orders and worker counts.  Checks (a) the printed order is the
 same for every delivery order (Go map iteration + batching must not matter) and (b) it equals the order the
-Lean specification (`sortspec` op of driver_C13) gives.  Keys are restricted to spellings where Python's
-float() agrees with strconv.ParseFloat; `date` is left to the in-process correspondence."""
-import os, struct, subprocess, sys
+Lean specification (`sortspec` op of driver_C13) gives.  `strconv.ParseFloat` and `strings.ToLower` are computed
+by the Lean model itself (no oracle data passed in), so the numeric pool contains NaN/Inf spellings, hex floats,
+underscores, out-of-range values and non-ASCII spellings of weekday names; `date` is left to the in-process
+correspondence."""
+import os, subprocess, sys
 sys.path.insert(0, os.path.dirname(__file__))
 from common import build_rare, Rand
 
-NUMS = ["1", "1.0", "01", "1e3", "-2", "+3", "10", "2", "9", "100", "1.5", "-1.5", "0", "-0", "0.0", "007", "1000", "2.50", "2.5"]
+NUMS = ["1", "1.0", "01", "1e3", "-2", "+3", "10", "2", "9", "100", "1.5", "-1.5", "0", "-0", "0.0", "007", "1000", "2.50", "2.5",
+        "nan", "NaN", "inf", "-inf", "+Inf", "Infinity", "1e400", "-1e400", "1e-400", "0x1p4", "0x10", "1_000", "1__0", "16", ".5", "5."]
 WORDS = ["abc", "qef", "egf", "zac", "bbb", "1a", "a1", "GET", "POST", "z", "B", "b", "error", "x10"]
-DAYS = ["mon", "Tue", "tues", "WED", "thursday", "Fri", "sat", "Sunday", "thu", "MONDAY"]
+DAYS = ["mon", "Tue", "tues", "WED", "thursday", "Fri", "sat", "Sunday", "thu", "MONDAY", "fr\u0130day", "FR\u0130"]
 MONTHS = ["jan", "Feb", "march", "APR", "may", "June", "jul", "sept", "Sep", "december"]
 
 
 def hexs(s):
     return s.encode().hex() if s else "-"
-
-
-def ford(k):
-    try:
-        v = float(k)
-    except ValueError:
-        return "e"
-    if v == 0:
-        return "0"
-    b = struct.unpack(">Q", struct.pack(">d", v))[0]
-    return str(-(b & 0x7FFFFFFFFFFFFFFF)) if b >> 63 else str(b)
 
 
 def run_extra(ctx):
@@ -47,9 +39,8 @@ def run_extra(ctx):
             modes.append("contextual")
         for mode in modes:
             # the specified order
-            case = "C13 sortspec %s %s %s %s %s %s ." % (hexs(mode), ";".join(hexs(k) for k in keys), ",".join(map(str, vals)),
-                                                       ",".join(str(i) for i in range(len(keys))), ",".join(ford(k) for k in keys),
-                                                       ",".join("x" for _ in keys))
+            case = "C13 sortspec %s %s %s %s %s ." % (hexs(mode), ";".join(hexs(k) for k in keys), ",".join(map(str, vals)),
+                                                    ",".join(str(i) for i in range(len(keys))), ",".join("x" for _ in keys))
             p = subprocess.run([ctx["driver"]], input=case + "\n", stdout=subprocess.PIPE, text=True, timeout=60)
             ans = p.stdout.strip()
             if not ans.startswith("ok"):
